@@ -54,9 +54,9 @@ PROPS = {
         "characterisation of the not-present rule (>= 2 parts, parent resolves to reflect kind Map), the table, errors elsewhere, exact substitution of the unknown value per selector, neutrality when every selector resolves",
         [MODEL_NOTE, "a *map parent does not get the table (interpretation recorded in DESIGN.md section 8)"],
         reference="the documented absent-key table / the unknown value substituted per selector"),
-    "C06": P("P_C06.v", ["C06"], T_EVAL,
+    "C06": P("P_C06.v", ["C06"], T_EVAL, reference="the lexically scoped fold semantics (lex_eval, proved equal to the model evaluator)", explanation=
         "the quantifier loop is the left-to-right fold of the C03 connectives over the element bodies; a value binding is a substitution (eval_subst), hence any/all = the unrolled disjunction/conjunction for lists and string-keyed maps; resolution through the binding stack is lexical scoping",
-        [MODEL_NOTE]),
+        assumptions=[MODEL_NOTE]),
     "C07": P("P_C07.v", ["C07"], T_PARSER + T_EVAL,
         "parser half: every mix of .name/.digits/[\"literal\"] spellings and the JSON-Pointer spelling is read as the same path (declarative semantics of the regenerated table); ~0/~1 unescape inverts escape for all strings; evaluator half: eval depends on a selector only through its path",
         [MODEL_NOTE, "back-quoted bracket literals and pointer segments the action rejects are covered by the correspondence only"]),
